@@ -1875,22 +1875,56 @@ func (fa *funcAnalysis) checkFlatFill(fd *ast.FuncDecl) {
 			ldOf[k] = true
 		}
 	}
-	if len(ldOf) == 0 {
-		return
-	}
 	flat := func(e ast.Expr) (string, *ast.SliceExpr, bool) {
 		se, ok := ast.Unparen(e).(*ast.SliceExpr)
 		if !ok || se.High == nil {
 			return "", nil, false
 		}
 		k, ok := fa.baseOwner(se.X)
-		if !ok || !ldOf[k] {
+		if !ok {
 			return "", nil, false
+		}
+		// matrix operands: a slice parameter with an ld* parameter, or the
+		// Data of a struct that has a Stride (blas64.General and friends)
+		if !ldOf[k] {
+			sel, isSel := ast.Unparen(se.X).(*ast.SelectorExpr)
+			if !isSel || !strings.HasPrefix(k, "path:") {
+				return "", nil, false
+			}
+			tv, ok := fa.info.Types[sel.X]
+			if !ok {
+				return "", nil, false
+			}
+			st, ok := tv.Type.Underlying().(*types.Struct)
+			if !ok {
+				return "", nil, false
+			}
+			hasStride := false
+			for i := 0; i < st.NumFields(); i++ {
+				if st.Field(i).Name() == "Stride" {
+					hasStride = true
+				}
+			}
+			if !hasStride {
+				return "", nil, false
+			}
 		}
 		units := map[string]bool{}
 		fa.exprUnits(se.High, units)
 		if !units[k] {
-			return "", nil, false
+			// between two Stride structs the extent may be written with the
+			// other operand's (equal) stride
+			any := false
+			if strings.HasPrefix(k, "path:") {
+				for u := range units {
+					if strings.HasPrefix(u, "path:") {
+						any = true
+					}
+				}
+			}
+			if !any {
+				return "", nil, false
+			}
 		}
 		// a row slice a[i*lda : i*lda+n] has the unit in its low bound too
 		if se.Low != nil {
@@ -1910,10 +1944,43 @@ func (fa *funcAnalysis) checkFlatFill(fd *ast.FuncDecl) {
 			Msg: fmt.Sprintf("%s walks the matrix operand %s as one contiguous range whose length is built from its leading dimension: the elements between the rows (stride padding, i.e. the neighbouring columns of an enclosing matrix) are written too", what, fa.ownerLabel(k)),
 		})
 	}
+	// locals defined as such a flat reslice: btmp := b[:ldb*(m-1)+n]
+	flatLocal := map[types.Object]struct {
+		k  string
+		se *ast.SliceExpr
+	}{}
+	ast.Inspect(fd.Body, func(n ast.Node) bool {
+		if as, ok := n.(*ast.AssignStmt); ok && len(as.Lhs) == len(as.Rhs) {
+			for i, l := range as.Lhs {
+				if id, ok := l.(*ast.Ident); ok {
+					if k, se, ok := flat(as.Rhs[i]); ok {
+						if o := core.ObjOf(fa.info, id); o != nil {
+							flatLocal[o] = struct {
+								k  string
+								se *ast.SliceExpr
+							}{k, se}
+						}
+					}
+				}
+			}
+		}
+		return true
+	})
+	flatOrLocal := func(e ast.Expr) (string, *ast.SliceExpr, types.Object, bool) {
+		if k, se, ok := flat(e); ok {
+			return k, se, nil, true
+		}
+		if id, ok := ast.Unparen(e).(*ast.Ident); ok {
+			if fl, ok := flatLocal[core.ObjOf(fa.info, id)]; ok {
+				return fl.k, fl.se, core.ObjOf(fa.info, id), true
+			}
+		}
+		return "", nil, nil, false
+	}
 	ast.Inspect(fd.Body, func(n ast.Node) bool {
 		switch x := n.(type) {
 		case *ast.RangeStmt:
-			k, se, ok := flat(x.X)
+			k, se, loc, ok := flatOrLocal(x.X)
 			if !ok {
 				return true
 			}
@@ -1929,7 +1996,14 @@ func (fa *funcAnalysis) checkFlatFill(fd *ast.FuncDecl) {
 				if as, ok := m.(*ast.AssignStmt); ok {
 					for _, l := range as.Lhs {
 						if ix, ok := ast.Unparen(l).(*ast.IndexExpr); ok {
+							sameBase := false
 							if bk, ok := fa.baseOwner(ix.X); ok && bk == k {
+								sameBase = true
+							}
+							if b, ok := ast.Unparen(ix.X).(*ast.Ident); ok && loc != nil && core.ObjOf(fa.info, b) == loc {
+								sameBase = true
+							}
+							if sameBase {
 								if id, ok := ast.Unparen(ix.Index).(*ast.Ident); ok && core.ObjOf(fa.info, id) == ko {
 									stores = true
 								}
@@ -1943,8 +2017,15 @@ func (fa *funcAnalysis) checkFlatFill(fd *ast.FuncDecl) {
 				report(x.Pos(), k, "the loop over "+types.ExprString(se))
 			}
 		case *ast.CallExpr:
+			if id, ok := x.Fun.(*ast.Ident); ok && id.Name == "copy" && len(x.Args) == 2 {
+				if k, se, _, ok := flatOrLocal(x.Args[0]); ok {
+					fa.res.Obligations++
+					fa.res.Count("flat_ranges_over_matrix_operands", 1)
+					report(x.Pos(), k, "copy("+types.ExprString(se)+", …)")
+				}
+			}
 			if id, ok := x.Fun.(*ast.Ident); ok && (id.Name == "clear" || id.Name == "zero") && len(x.Args) == 1 {
-				if k, se, ok := flat(x.Args[0]); ok {
+				if k, se, _, ok := flatOrLocal(x.Args[0]); ok {
 					fa.res.Obligations++
 					fa.res.Count("flat_ranges_over_matrix_operands", 1)
 					report(x.Pos(), k, id.Name+"("+types.ExprString(se)+")")
@@ -1953,7 +2034,7 @@ func (fa *funcAnalysis) checkFlatFill(fd *ast.FuncDecl) {
 			// a vector kernel of internal/asm handed the whole extent
 			if fn, _ := typeutil.Callee(fa.info, x).(*types.Func); fn != nil && fn.Pkg() != nil && strings.Contains(fn.Pkg().Path(), "/internal/asm/") {
 				for _, a := range x.Args {
-					if k, se, ok := flat(a); ok {
+					if k, se, _, ok := flatOrLocal(a); ok {
 						fa.res.Obligations++
 						fa.res.Count("flat_ranges_over_matrix_operands", 1)
 						report(x.Pos(), k, fn.Name()+"(… "+types.ExprString(se)+" …)")
